@@ -107,9 +107,9 @@ Theorem C03_block_partition : forall (m : mode) (R : list (N * N)) (L : N),
 Proof. exact rl_block_partition. Qed.
 Print Assumptions C03_block_partition.
 
-(* not proved: the derived iterators beyond their first item (select_iter / one_iter / zero_iter / iter and
-   select_zero_iter); they are covered by the correspondence run only *)
-Definition C03_iterators_statement : Prop := forall (m : mode) (R : list (N * N)) (L : N) (n : nat),
+(* the derived iterators: for every n, the first n items of select_iter(r) / select_zero_iter(r) / one_iter() /
+   zero_iter() / iter() are the ranked set positions from rank r, the ranked unset positions, and the bits *)
+Theorem C03_iterators : forall (m : mode) (R : list (N * N)) (L : N) (n : nat),
   runs_sorted 0 R -> runs_end R <= L -> L <= 2 ^ 64 - 1 -> lenN R < 2 ^ 56 ->
   exists v,
     rl_build m (map (fun r => BTrySet (fst r) (snd r)) R ++ [BSetLen L]) = Ok (v, map (fun _ => true) R ++ [true]) /\
@@ -120,6 +120,8 @@ Definition C03_iterators_statement : Prop := forall (m : mode) (R : list (N * N)
     (let* s := rl_one_iter v in oi_take n m v s) = Ok (ones_from_rank n (maximal R) 0) /\
     (let* s := rl_zero_iter m v in zi_take n m v s) = Ok (zeros_from_rank n (maximal R) L 0) /\
     (let* s := rl_iter v in bi_take n m v s) = Ok (bits_from n (maximal R) L 0).
+Proof. intros m R L n. exact (rl_iterators m R L n). Qed.
+Print Assumptions C03_iterators.
 
 (* non-vacuity: the documentation example (an adjacent pair merges), and the two former defects as inputs *)
 Example C03_example_doc :
